@@ -42,7 +42,8 @@ for name in x86_afs.reg_xmm:
 segments = {}
 for name in x86_afs.reg_sg:
     segments[name] = x86_afs.u32
-    registers[name] = x86_afs.size_seg
+    # same operand size as the Intel parser gives them
+    registers[name] = x86_afs.u32
 
 def t_NAME(t):
     r'([a-zA-Z_][a-zA-Z0-9_.$]*|\.L[a-zA-Z0-9_.]+)(@[a-zA-Z]+)?|[0-9]+[bf]|\[\.-\.L[A-Z]*[0-9]*\]'
